@@ -221,7 +221,18 @@ impl FeelDate {
   }
   ///
   pub fn weekday(&self) -> Option<u32> {
-    weekday(&FeelDateTime(self.clone(), FeelTime::utc(0, 0, 0, 0)))
+    if let Some(day_num) = weekday(&FeelDateTime(self.clone(), FeelTime::utc(0, 0, 0, 0))) {
+      return Some(day_num);
+    }
+    // the year is out of the range supported by chrono, the weekday is calculated from
+    // the number of days since 1970-01-01 (Thursday) in proleptic Gregorian calendar
+    let (month, day) = (self.1 as i64, self.2 as i64);
+    let year = if month <= 2 { self.0 as i64 - 1 } else { self.0 as i64 };
+    let (era, year_of_era) = (year.div_euclid(400), year.rem_euclid(400));
+    let day_of_year = (153 * (if month > 2 { month - 3 } else { month + 9 }) + 2) / 5 + day - 1;
+    let day_of_era = year_of_era * 365 + year_of_era / 4 - year_of_era / 100 + day_of_year;
+    let days = era * 146_097 + day_of_era - 719_468;
+    Some(((days + 3).rem_euclid(7) + 1) as u32)
   }
   ///
   pub fn as_tuple(&self) -> (i32, u32, u32) {
